@@ -48,6 +48,8 @@ class Ctx(object):
         self._mir = None
         self._src_hash = None
         self.fail_closed = []     # UNANALYSABLE / floor failures: (key, message)
+        self.exhaustive = True    # rules set this to False when a domain is sampled rather than enumerated completely
+        self.exhaustive_note = ''
 
     # ---- facts
     @property
@@ -230,7 +232,9 @@ class Ctx(object):
                 'rules': self.rules,
                 'rule_kinds': nontrivial,
                 'samples': self.samples[:40] or ['(none)'],
-                'exhaustive': True,
+                'exhaustive': bool(self.exhaustive),
+                'exhaustive_note': self.exhaustive_note or ('every table enumerates its whole finite domain' if self.exhaustive else ''),
+                'notes': self.notes[:20],
                 'checker_cmd': './check %s --tier %s' % (self.pid, self.tier),
                 'trusted_base': ['syn parser (srcfacts)', 'rustc nightly MIR (mirfacts)', 'checker/pete.py integer semantics',
                                  'hand-written oracles under /verif/oracles'],
@@ -268,6 +272,16 @@ def run_check(pid, tier, seed):
     ctx = Ctx(pid, tier, seed)
     try:
         explanation = mod.run(ctx)
+        if tier == 'thorough' and hasattr(mod, 'Y') and not getattr(mod, 'NO_YEAR_SWEEP', False):
+            # thorough: repeat the scenario-based rules for other scenario years (different weekday / pillar / leap alignments)
+            y0 = mod.Y
+            for alt in (1900, 2033, 2100 + (seed % 7)):
+                mod.Y = alt
+                try:
+                    ctx.notes.append('scenario year %d' % alt)
+                    mod.run(ctx)
+                finally:
+                    mod.Y = y0
     except Exception as ex:  # a crash of the checker is a broken check: fail closed, loudly
         traceback.print_exc()
         ctx.fail_closed.append(('CHECKER-ERROR', 'internal', 'checker crashed: %r' % (ex,)))
